@@ -33,6 +33,7 @@ type c15Runner struct {
 	calls       int
 	failedYet   bool
 	okAfterFail bool
+	beat        func() // progress signal for the recorder's watchdog (bulk steps take many seconds)
 }
 
 // keep retains a result for later comparison: at most 10 results, of which at most 2
@@ -319,6 +320,9 @@ func (r *c15Runner) bulk(step *core.Case) error {
 		return -1
 	}
 	for i := int64(0); i < step.Ints[1]; i++ {
+		if r.beat != nil {
+			r.beat()
+		}
 		got, gp, gerr := c15Read(&r.vr, kind, doc)
 		r.calls++
 		if (gerr == nil) != (werr == nil) || gp != wp || size(got) != size(want) {
